@@ -212,7 +212,11 @@ class SymT:
     def __rmul__(s, o): return SymT._bin('mul', o, s)
     def __truediv__(s, o): return SymT._bin('div', s, o)
     def __rtruediv__(s, o): return SymT._bin('div', o, s)
-    __iadd__, __isub__, __imul__, __itruediv__ = __add__, __sub__, __mul__, __truediv__
+    def _inplace(s, o):
+        # in-place updates alias autograd buffers (e.g. `a -= b` where `a` is also another gradient output);
+        # the expression DAG cannot express that, so the translator refuses instead of guessing
+        raise Untranslatable('in-place update of a tensor (aliasing is not modelled)')
+    __iadd__ = __isub__ = __imul__ = __itruediv__ = _inplace
 
     def __neg__(s):
         s._check()
